@@ -3,6 +3,7 @@ import Pms.Props.C07Sq
 import Pms.Props.C07Rot
 import Pms.Props.C07Pair
 import Pms.Props.C07Dyn
+import Pms.Props.C07Ql
 
 #print axioms Pms.Sym.C07_translation_disp
 #print axioms Pms.Sym.C07_translation_gr
@@ -45,3 +46,5 @@ import Pms.Props.C07Dyn
 #print axioms Pms.Sym.C07_relabel_dyn
 #print axioms Pms.Sym.C07_relabel_boo
 #print axioms Pms.Sym.C07_relabel_psi2d
+#print axioms Pms.Sym.C07_rot_ql
+#print axioms Pms.Sym.C07_scale_ql
